@@ -294,7 +294,19 @@ type cellInfo struct {
 }
 
 // NewTracer prepares a tracer for root.
+// thoroughBoost deepens the exploration in the thorough tier: loops are
+// unrolled up to two iterations by default and the path budget is larger.
+var thoroughBoost bool
+
 func NewTracer(p *Prog, spec *Spec, root *ssa.Function) *Tracer {
+	if thoroughBoost {
+		if spec.EdgeLimit == 0 {
+			spec.EdgeLimit = 2
+		}
+		if spec.MaxPaths == 0 {
+			spec.MaxPaths = 400000
+		}
+	}
 	if spec.MaxPaths == 0 {
 		spec.MaxPaths = 50000
 	}
